@@ -355,7 +355,7 @@ func (l jsonList) patch(pathBehind, pathAhead Path, before, removeValues, addVal
 		if int(i) < 0 || int(i) > len(l)-1 {
 			return nil, fmt.Errorf("patch index out of bounds: %v", i)
 		}
-		patchedNode, err := l[i].patch(append(pathBehind, n), rest, nil, removeValues, addValues, nil, strategy)
+		patchedNode, err := l[i].patch(append(pathBehind, n), rest, before, removeValues, addValues, after, strategy)
 		if err != nil {
 			return nil, err
 		}
